@@ -119,6 +119,17 @@ func enumC14(env *engine.Env, yield func(any) bool) {
 			}
 		}
 	}
+	// viaenv: the version (and its companions) come from environment references in the document: the package must
+	// state exactly what it states when the same text is written literally
+	for _, v := range []string{"v1.2.3-rc1+git.abc", "1.2.3", "1.2", "v2", "1.2.3-beta-1", "2024.01.05", "1.2.3+meta"} {
+		for _, schema := range []string{"", "none"} {
+			for _, f := range Formats {
+				if !yield(C14Case{Part: "viaenv", A: VerCfg{Version: v, Schema: schema, Release: "2", Epoch: "1"}, Why: f}) {
+					return
+				}
+			}
+		}
+	}
 	// repeat: packaging the same effective settings (*Info) twice must state the same version both times
 	for _, p := range c14Pres {
 		for _, m := range c14Metas {
@@ -250,7 +261,7 @@ func enumC14(env *engine.Env, yield func(any) bool) {
 		}
 	}
 	// order: epochs
-	epochs := []string{"", "1", "2", "10"}
+	epochs := []string{"", "1", "2", "9", "010", "11"} // numeric order; a leading zero does not change the number
 	hi := []VerCfg{{Version: "10.10.10"}, {Version: "10.10.10", Release: "9"}, {Version: "2.0.0", Meta: "git"}}
 	lo := []VerCfg{{Version: "0.0.1"}, {Version: "0.0.1", Pre: "alpha"}, {Version: "1.9.9", Release: "1"}}
 	for i, e1 := range epochs {
@@ -358,6 +369,62 @@ func checkC14(env *engine.Env, ci any) engine.Outcome {
 				out.Violations = append(out.Violations, engine.Violation{Sig: "version:verbatim:" + f,
 					Detail: fmt.Sprintf("format=%s version=%q schema=%q: the version is not split (schema none / not a semantic version) and must be used verbatim; %s says %q, expected %q", f, c.A.Version, c.A.Schema, k, got, want)})
 			}
+		}
+		return out
+	}
+	if c.Part == "viaenv" {
+		f := c.Why
+		mc := verDoc(c.A)
+		lit := metaDoc(mc, f, t)
+		ref := metaDoc(mc, f, t)
+		// version and release are the two version components documented as environment-expanded
+		envm := map[string]string{"C14_VERSION": c.A.Version, "C14_RELEASE": c.A.Release}
+		ref["version"], ref["release"] = "${C14_VERSION}", "${C14_RELEASE}"
+		out.Key = fmt.Sprintf("viaenv:%s:%q:%q", f, c.A.Version, c.A.Schema)
+		a, errA := buildYAML(lit.YAML(), f)
+		cfg, err := parseYAML(ref.YAML(), func(k string) string { return envm[k] })
+		if err != nil {
+			out.HarnessError = err.Error()
+			return out
+		}
+		b, _, errB := packageFrom(&cfg, f)
+		out.Transitions += 2
+		// a library user may package what Parse + Get return as it is (Parse has applied the defaults already)
+		if errB == nil {
+			if cfg2, err := parseYAML(ref.YAML(), func(k string) string { return envm[k] }); err == nil {
+				if info, err := cfg2.Get(f); err == nil {
+					if p, err := nfpm.Get(f); err == nil {
+						var buf strings.Builder
+						if err := p.Package(info, &buf); err == nil && buf.String() != string(b) {
+							out.Violations = append(out.Violations, engine.Violation{Sig: "version:viaenv:defaults-order:" + f, Detail: fmt.Sprintf("format=%s version=%q schema=%q (as environment references): packaging the settings exactly as Parse and Get return them gives a different package (%d bytes) than packaging them after another WithDefaults (%d bytes) - the defaults were not applied to the expanded values", f, c.A.Version, c.A.Schema, buf.Len(), len(b))})
+						}
+						out.Transitions++
+					}
+				}
+			}
+		}
+		if (errA == nil) != (errB == nil) {
+			out.Violations = append(out.Violations, engine.Violation{Sig: "version:viaenv:outcome:" + f, Detail: fmt.Sprintf("format=%s version=%q schema=%q: written literally the build gives %v, written as environment references it gives %v", f, c.A.Version, c.A.Schema, errA, errB)})
+			return out
+		}
+		if errA != nil {
+			return out
+		}
+		out.Nontrivial = true
+		if string(a) != string(b) {
+			pa, e1 := pkgread.Decode(f, a, env.Tools)
+			pb, e2 := pkgread.Decode(f, b, env.Tools)
+			det := ""
+			if e1 == nil && e2 == nil {
+				for _, k := range []string{"Version", "Release", "Epoch", "pkgver"} {
+					va, _ := pa.Field(k)
+					vb, _ := pb.Field(k)
+					if va != vb {
+						det += fmt.Sprintf(" %s: %q literally, %q through the environment;", k, va, vb)
+					}
+				}
+			}
+			out.Violations = append(out.Violations, engine.Violation{Sig: "version:viaenv:differs:" + f, Detail: fmt.Sprintf("format=%s version=%q schema=%q: the package differs when version and release are written as environment references (documented as expandable) instead of literally:%s", f, c.A.Version, c.A.Schema, det)})
 		}
 		return out
 	}
